@@ -85,6 +85,28 @@ def framework_sources():
     return sorted(set(out))
 
 
+def build_extractor():
+    out = os.path.join(VERIF, "bin", "extract")
+    src = os.path.join(VERIF, "tools", "extract")
+    os.makedirs(os.path.dirname(out), exist_ok=True)
+    if not os.path.exists(out) or os.path.getmtime(out) < max(os.path.getmtime(os.path.join(src, f)) for f in os.listdir(src)):
+        sh(["go", "build", "-o", out, "."], cwd=src, env=GOENV)
+    return out
+
+
+def extract_facts(wdir):
+    """Lock facts of the CURRENT tree (extracted from the rewritten scratch copy that the harness binary was built from)."""
+    binp = build()
+    src = os.path.join(os.path.dirname(binp), "sod")
+    ex = build_extractor()
+    os.makedirs(wdir, exist_ok=True)
+    tla = os.path.join(wdir, "SodLockFacts.tla")
+    js = os.path.join(wdir, "facts.json")
+    p = sh([ex, "-dir", src, "-out", tla, "-json", js], env=GOENV)
+    with open(js) as f:
+        return json.load(f), tla, p.stdout.strip()
+
+
 def build_rewriter():
     out = os.path.join(VERIF, "bin", "rewrite")
     src = os.path.join(VERIF, "tools", "rewrite")
@@ -119,6 +141,11 @@ def build(race=False, tags=""):
         if p.returncode != 0:
             raise Inconclusive("scratch copy of /repo does not build:\n" + p.stdout[-6000:])
         os.makedirs(cdir, exist_ok=True)
+        # the rewritten source is kept next to the binary: the lock-fact extractor reads it, so that
+        # the call sites it reports are those of the running binary
+        if os.path.isdir(os.path.join(cdir, "sod")):
+            shutil.rmtree(os.path.join(cdir, "sod"))
+        shutil.copytree(os.path.join(tmp, "sod"), os.path.join(cdir, "sod"))
         shutil.copy(os.path.join(tmp, "sodh"), binp)
         # prune old builds
         builds = sorted(glob.glob(os.path.join(VERIF, ".work", "build-*")), key=os.path.getmtime)
